@@ -73,11 +73,18 @@ type profSpec struct {
 
 var (
 	bcryptRight []byte
+	// bcryptSecond is the hash of the password a device gets when its
+	// password is changed.
+	bcryptSecond []byte
 )
 
 func init() {
 	var err error
 	bcryptRight, err = bcrypt.GenerateFromPassword([]byte("right"), 4)
+	if err != nil {
+		panic(err)
+	}
+	bcryptSecond, err = bcrypt.GenerateFromPassword([]byte("second"), 4)
 	if err != nil {
 		panic(err)
 	}
@@ -283,6 +290,9 @@ func (u *universe) materialise() {
 		var auth agdpasswd.Authenticator = agdpasswd.AllowAuthenticator{}
 		if d.password != "" {
 			auth = agdpasswd.NewPasswordHashBcrypt(bcryptRight)
+		}
+		if d.password == "second" {
+			auth = agdpasswd.NewPasswordHashBcrypt(bcryptSecond)
 		}
 		if d.badHash != nil {
 			auth = agdpasswd.NewPasswordHashBcrypt(d.badHash)
@@ -862,7 +872,13 @@ func run(s *kernel.Sim, prop, cfg string) {
 				d := kernel.Pick(t, u.devs, "changed-device")
 				if !d.auto {
 					d.authOn, d.dohOnly, d.password, d.badHash = false, false, "", nil
-					switch t.Choose(5, "auth") {
+					switch t.Choose(7, "auth") {
+					case 5:
+						// The password is changed: the old one opens nothing
+						// any more.
+						d.authOn, d.password = true, "second"
+					case 6:
+						d.authOn, d.dohOnly, d.password = true, true, "second"
 					case 1:
 						d.authOn, d.password = true, "right"
 					case 2:
@@ -1089,8 +1105,11 @@ func genRequest(t *kernel.Tape, u *universe, servers map[string]*agd.Server, kin
 			// The basic-auth user name is compared as is; case variants are
 			// exercised on the URL and TLS channels.
 			r.user = strings.ToLower(id)
-			switch t.Choose(4, "pass") {
+			switch t.Choose(6, "pass") {
 			case 0:
+			case 4, 5:
+				// The other password devices may have, or have had.
+				r.pass, r.hasPass = "second", true
 			case 1:
 				r.pass, r.hasPass = "right", true
 			case 2:
